@@ -872,6 +872,23 @@ func generateScenarios(prop string, seed uint64, n int, adv bool) []*scenario {
 			out = append(out, g.rollout(i, s, true))
 		case prop == "C09":
 			out = append(out, g.rollout(i, s, i%2 == 0))
+		case prop == "C17":
+			switch i % 7 {
+			case 0:
+				out = append(out, g.basic("basic", i, s))
+			case 1:
+				out = append(out, g.race(i, s))
+			case 2:
+				out = append(out, g.lifecycle(i, s))
+			case 3:
+				out = append(out, g.statusy(i, s))
+			case 4:
+				out = append(out, g.faulty(i, s))
+			case 5:
+				out = append(out, g.malformed(i, s))
+			default:
+				out = append(out, g.rollout(i, s, i%2 == 0))
+			}
 		case prop == "C12" && i%6 != 0:
 			out = append(out, g.faulty(i, s))
 		case prop == "C13" && i%8 != 0:
